@@ -53,10 +53,14 @@ def _budget_cb(frame):
     n = _steps.get(k, 0) + 1
     _steps[k] = n
     nl = frame.f_locals.get("node_list")
-    budget = 64 + 16 * (len(nl) if nl is not None else 0)
+    if frame.f_code.co_name == "search" and nl is not None:
+        budget = 64 + 16 * len(nl)  # the region search: a small multiple of the list it searches
+    else:
+        budget = 3_000_000  # any other function of the view module, per call (inputs here have <= 2600 records)
     if n > budget:
         _steps.clear()
-        raise NonTermination(f"view.search executed more than {budget} lines for a node list of {len(nl) if nl is not None else '?'}")
+        raise NonTermination(f"view.{frame.f_code.co_name} executed more than {budget} lines in one call"
+                             + (f" for a node list of {len(nl)}" if nl is not None else ""))
 
 
 def _reset_cb(frame):
@@ -65,11 +69,15 @@ def _reset_cb(frame):
 
 
 def setup(ctx):
+    import types
     from gaftools.cli import view
-    if hasattr(view, "search"):
-        M.PROBES.every_line(view.search, _budget_cb, "search_step_budget", on_start=_reset_cb)
-    else:  # the termination monitor has nothing to attach to: the run is inconclusive (REQUIRED_PROBES)
+    # step budget per call on every function defined in the view module (whatever its helpers are called)
+    funcs = [f for f in vars(view).values() if isinstance(f, types.FunctionType) and f.__module__ == view.__name__]
+    if not funcs:
         M.PROBES.status["search_step_budget"] = "unattached"
+    for f in funcs:
+        M.PROBES.every_line(f, _budget_cb, "search_step_budget", on_start=_reset_cb)
+    M.COUNTS["step_budget_functions"] += len(funcs)
 
 
 def node_sets(w, contig, a, b):
